@@ -4,5 +4,7 @@ expr="$1"; file="$2"; shift 2
 cd /repo && sed -i "$expr" "$file" && git diff --stat | tail -1
 if ! cargo build --offline 2>&1 | tail -1 | grep -q Finished; then echo "MUTANT DOES NOT COMPILE"; fi
 cd /verif
+rm -rf /tmp/evidence.bak && cp -r /verif/evidence /tmp/evidence.bak
 for p in "$@"; do ./check $p quick 2>&1 | grep -E "^(VIOLATION|OK|UNDECIDED|FAILED|KNOWN)" | head -6; echo "  -> exit=$?"; done
 git -C /repo checkout -- . 
+rm -rf /verif/evidence && cp -r /tmp/evidence.bak /verif/evidence
